@@ -88,6 +88,7 @@ type Report struct {
 	Kind  string   `json:"kind"`
 	L     int      `json:"l"`
 	I     int      `json:"i"`
+	Form  int      `json:"form"` // C10: index of the form within its class
 	Class string   `json:"class"`
 	Devs  []string `json:"devs"`
 	Ref   string   `json:"ref"`
@@ -125,6 +126,7 @@ type Exec struct {
 	Schema  string // concrete schema text of the whole program
 	Texts   []string
 	GenErr  string
+	GenDead bool // the generator process crashed or hung on this unit
 	Built   bool
 	BuildErr string
 	Out     *work.RunOut
@@ -208,6 +210,12 @@ func seedOf() int64 {
 }
 
 func enumerateOne(module string, extraCfg func(string) string, sc *work.Scratch, allDevs []string, tier string) ([]*Unit, *tlc.Result, error) {
+	return enumerateOneProps(module, extraCfg, sc, allDevs, tier, "", "")
+}
+
+// enumerateOneProps: like enumerateOne, in scratch directory tlc-mc-<module><suffix>, with extra cfg lines
+// (e.g. a PROPERTY for liveness).
+func enumerateOneProps(module string, extraCfg func(string) string, sc *work.Scratch, allDevs []string, tier, suffix, cfgTail string) ([]*Unit, *tlc.Result, error) {
 	// the MC modules model the JSON path: deviations of the YAML path only ("Yaml...") do not apply
 	var devs []string
 	for _, d := range allDevs {
@@ -221,8 +229,8 @@ func enumerateOne(module string, extraCfg func(string) string, sc *work.Scratch,
 		extra = extraCfg(tier)
 	}
 	cfg := "SPECIFICATION Spec\nCONSTANTS\n  UnitsFile = \"stdout\"\n  Devs = " + devSet(devs) + "\n" + extra +
-		"INVARIANTS DesignOK AsIsOK Emit\nCHECK_DEADLOCK FALSE\n"
-	r, err := tlc.Run(tlc.Opts{Module: f.Module, Cfg: cfg, Dir: filepath.Join(sc.Dir, "tlc-mc-"+module), Workers: 16,
+		"INVARIANTS DesignOK AsIsOK Emit\nCHECK_DEADLOCK FALSE\n" + cfgTail
+	r, err := tlc.Run(tlc.Opts{Module: f.Module, Cfg: cfg, Dir: filepath.Join(sc.Dir, "tlc-mc-"+module+suffix), Workers: 16,
 		Timeout: 30 * time.Minute, HeapGB: 12})
 	if err != nil {
 		return nil, r, err
@@ -303,7 +311,7 @@ func Execute(f *Family, sc *work.Scratch, tag string, units []*Unit, pack int) (
 		var exs []*Exec
 		if !packed {
 			u := p.units[0]
-			s, err := unitSchema(u, nil)
+			s, err := unitSchema(u, unitRen(u))
 			if err != nil {
 				return nil, err
 			}
@@ -357,8 +365,19 @@ func Execute(f *Family, sc *work.Scratch, tag string, units []*Unit, pack int) (
 		}
 		cfg.DefaultPackageName = p.id
 		cfg.DefaultOutputName = "root.go"
+		files, entry := map[string]string{"root.json": schema}, "root.json"
+		if !packed {
+			if fs, en, exts, ok, err := unitFiles(p.units[0], schema); err != nil {
+				return nil, err
+			} else if ok {
+				files, entry = fs, en
+				cfg.ResolveExtensions = exts
+				cfg.YAMLExtensions = []string{".yml", ".yaml"} // the CLI's default
+				exs[0].Schema = describeFiles(fs, en)
+			}
+		}
 		jobs = append(jobs, work.GenJob{ID: p.id, Dir: filepath.Join(sc.Dir, "in", p.id),
-			Files: map[string]string{"root.json": schema}, Entries: []string{"root.json"},
+			Files: files, Entries: []string{entry},
 			OutDir: filepath.Join(sc.Mod, "gen", p.id), Cfg: cfg})
 	}
 	gres, err := sc.Generate(jobs)
@@ -378,6 +397,7 @@ func Execute(f *Family, sc *work.Scratch, tag string, units []*Unit, pack int) (
 			}
 			for _, e := range byProg[p.id] {
 				e.GenErr = msg
+				e.GenDead = r != nil && r.Dead
 			}
 			_ = os.RemoveAll(filepath.Join(sc.Mod, "gen", p.id))
 			continue
@@ -431,7 +451,11 @@ func Execute(f *Family, sc *work.Scratch, tag string, units []*Unit, pack int) (
 				e.Consts, e.HasConsts = stringConsts(filepath.Join(sc.Mod, "gen", p.id, "root.go"))
 			}
 		}
-		okProgs = append(okProgs, work.Prog{Key: p.id, PkgPath: "gen/" + p.id, Type: "RootJson"})
+		rootType := "RootJson"
+		if rt := p.units[0].Str("roottype"); rt != "" && pack <= 1 {
+			rootType = rt
+		}
+		okProgs = append(okProgs, work.Prog{Key: p.id, PkgPath: "gen/" + p.id, Type: rootType})
 	}
 	if f.Judge == "build" { // C01: nothing is executed
 		for _, e := range execs {
@@ -599,10 +623,109 @@ func unitSchema(u *Unit, ren abs.RefRename) (string, error) {
 	for k, v := range s {
 		m[k] = v
 	}
-	if dl, _ := u.Raw["defs"].([]any); len(dl) > 0 {
+	envOnly, _ := u.Raw["envonly"].(bool) // defs is only the environment of the reference semantics: the schemas live in files
+	if dl, _ := u.Raw["defs"].([]any); len(dl) > 0 && !envOnly {
 		m["defs"] = dl
 	}
+	if dl, _ := u.Raw["ldefs"].([]any); len(dl) > 0 {
+		m["ldefs"] = dl
+	}
 	return abs.Schema(m, ren)
+}
+
+// unitRen: units with strip = true spell their definition names without digits (N1, N2 -> N), so that two
+// documents declare same-named definitions while the specification keeps them apart.
+func unitRen(u *Unit) abs.RefRename {
+	l, _ := u.Raw["strip"].([]any)
+	if len(l) == 0 {
+		return nil
+	}
+	set := map[string]bool{}
+	for _, x := range l {
+		if s, ok := x.(string); ok {
+			set[s] = true
+		}
+	}
+	return func(n string) string {
+		if set[n] {
+			return strings.TrimRight(n, "0123456789")
+		}
+		return n
+	}
+}
+
+func segPath(v any) string {
+	l, _ := v.([]any)
+	parts := make([]string, len(l))
+	for i, x := range l {
+		parts[i], _ = x.(string)
+	}
+	return strings.Join(parts, "/")
+}
+
+// unitFiles materialises a multi-document unit (C10): the root document at rootpath plus the documents of
+// field files ([path, s, defs, yaml]); ok = false for ordinary single-document units.
+func unitFiles(u *Unit, rootSchema string) (map[string]string, string, []string, bool, error) {
+	if _, has := u.Raw["rootpath"]; !has {
+		return nil, "", nil, false, nil
+	}
+	entry := segPath(u.Raw["rootpath"])
+	files := map[string]string{entry: rootSchema}
+	ren := unitRen(u)
+	fl, _ := u.Raw["files"].([]any)
+	for _, f := range fl {
+		fm, _ := f.(map[string]any)
+		m := map[string]any{}
+		if s, ok := fm["s"].(map[string]any); ok {
+			for k, v := range s {
+				m[k] = v
+			}
+		}
+		if dl, _ := fm["defs"].([]any); len(dl) > 0 {
+			m["defs"] = dl
+		}
+		text, err := abs.Schema(m, ren)
+		if err != nil {
+			return nil, "", nil, false, err
+		}
+		if y, _ := fm["yaml"].(bool); y {
+			var v any
+			dec := json.NewDecoder(strings.NewReader(text))
+			dec.UseNumber()
+			if err := dec.Decode(&v); err != nil {
+				return nil, "", nil, false, err
+			}
+			b, err := yaml.Marshal(plainNumbers(v))
+			if err != nil {
+				return nil, "", nil, false, err
+			}
+			text = string(b)
+		}
+		files[segPath(fm["path"])] = text
+	}
+	var exts []string
+	if l, ok := u.Raw["exts"].([]any); ok {
+		for _, x := range l {
+			if s, ok := x.(string); ok {
+				exts = append(exts, s)
+			}
+		}
+	}
+	return files, entry, exts, true, nil
+}
+
+func describeFiles(files map[string]string, entry string) string {
+	names := make([]string, 0, len(files))
+	for n := range files {
+		names = append(names, n)
+	}
+	sort.Strings(names)
+	var b strings.Builder
+	fmt.Fprintf(&b, "entry %s", entry)
+	for _, n := range names {
+		fmt.Fprintf(&b, " | %s: %s", n, strings.TrimSpace(files[n]))
+	}
+	return b.String()
 }
 
 // Observation builds the trace event of an executed unit (nil if the unit could not be observed).
